@@ -3,7 +3,7 @@ import os, random
 import vlib
 
 ALL_KINDS = ["bool", "int", "i32", "i64", "s32", "s64", "uint", "u32", "u64", "x32", "x64", "flt", "dbl", "str", "byt",
-             "arr", "arr7", "arr15", "arr16", "m1", "m2", "m3", "m4"]
+             "arr", "arr7", "arr15", "arr16", "rawm", "pmsg", "cmsg", "m1", "m2", "m3", "m4"]
 
 
 def tla_set(xs):
